@@ -24,18 +24,18 @@ func init() {
 }
 
 func runC11(c *core.Ctx) {
-	ruleCopierNonNil(c)
-	ruleCopyReferenceProtocol(c)
-	ruleCopierDeterminism(c)
-	ruleCryptRecipe(c)
-	ruleCopierErrors(c)
-	ruleCopierNoMutation(c)
-	ruleNilEntryDiscipline(c)
-	rulePublishedNotRecycled(c, "C11-R9", "pdf")
-	ruleCopierStructure(c)
-	ruleCopyOneStep(c)
-	ruleCopiedElementsTranslated(c)
-	ruleInStreamGuards(c, "C11-R8") // copied streams: dictionary strings are encrypted under the target object's key
+	c.Guard(func() { ruleCopierNonNil(c) })
+	c.Guard(func() { ruleCopyReferenceProtocol(c) })
+	c.Guard(func() { ruleCopierDeterminism(c) })
+	c.Guard(func() { ruleCryptRecipe(c) })
+	c.Guard(func() { ruleCopierErrors(c) })
+	c.Guard(func() { ruleCopierNoMutation(c) })
+	c.Guard(func() { ruleNilEntryDiscipline(c) })
+	c.Guard(func() { rulePublishedNotRecycled(c, "C11-R9", "pdf") })
+	c.Guard(func() { ruleCopierStructure(c) })
+	c.Guard(func() { ruleCopyOneStep(c) })
+	c.Guard(func() { ruleCopiedElementsTranslated(c) })
+	c.Guard(func() { ruleInStreamGuards(c, "C11-R8") }) // copied streams: dictionary strings are encrypted under the target object's key
 }
 
 func ruleCopierNonNil(c *core.Ctx) {
